@@ -430,6 +430,33 @@ PROPS["C20"] = {
     "assumptions": ["choices are fenced evy blocks, the question is a plain fenced output block (one of the documented question forms)"],
 }
 
+PROPS["C18"] = {
+    "pkg": "p18",
+    "needs_evy": True,
+    "level": "fault_enumeration",
+    "level_text": "For each generated source file (model programs with adversarial layout, repository programs, already formatted text, "
+                  "texts that do not parse, empty, one-byte, no final newline, 200 KB) and permission mode (0644, 0600, 0755, 0664, 0640, "
+                  "0444) the real `evy fmt -w FILE` first runs un-faulted under strace to record its file-system calls; then every one "
+                  "of those calls (open, read, create, write, chmod, close, rename) is, one run each, (a) hit by SIGKILL on entry and "
+                  "(b) made to fail with ENOSPC, EIO and EACCES (strace -e inject). After every run the file must hold exactly its "
+                  "original or exactly the formatted text - the original unless the rename completed -, keep its permission bits, and "
+                  "a failure of a call the formatter depends on must give a non-zero exit status. `evy fmt -c` (file and stdin) must "
+                  "exit 0 exactly for already formatted input and leave bytes, mode and mtime alone; a file that does not parse must be "
+                  "left untouched with a non-zero status and a message naming it.",
+    "level_note": "Fault points are the system-call boundaries of one process (where file-system state can change); power loss (no "
+                  "fsync) is outside the statement. Short writes are not injected: strace's retval injection does not perform the partial "
+                  "write, which no real kernel does. Enumeration is complete over the calls that touch the file's directory, per file.",
+    "technique": "property-based generation of files x exhaustive syscall-level fault and kill injection with strace, oracle on file bytes/mode/exit status (rapid)",
+    "tests": [
+        {"name": "TestProp", "quick": {"shards": 8, "checks": 5}, "thorough": {"shards": 16, "checks": 60}},
+    ],
+    "rule": "cases: (file content, mode); per case all kill points and error injections are enumerated (counts in coverage.extra: "
+            "strace_runs, kill_points, injected_errors, faults_before_rename_completed). Non-trivial = the file parses (so -w really "
+            "rewrites it under faults); distinct by (mode, content).",
+    "exhaustive_part": "every file-system call of the un-faulted run that touches the file's directory x {SIGKILL, ENOSPC, EIO, EACCES}",
+    "assumptions": ["strace (ptrace) works in the sandbox; runs as root, so EACCES only occurs when injected"],
+}
+
 NOT_APPLICABLE = {}
 
 ENGINES = [
